@@ -73,6 +73,15 @@ class BrokenStrError(BodyError):
         return 42  # type: ignore[return-value]
 
 
+class QuotaError(BodyError):
+    """A constructor whose parameters are not what ends up in .args (the usual 'message built from fields' exception)."""
+
+    def __init__(self, user: str, limit: int) -> None:
+        super().__init__(f"user {user} is over the limit of {limit}")
+        self.user = user
+        self.limit = limit
+
+
 class BodyBaseError(BaseException):
     """BaseException (not Exception) raised by scripted task bodies."""
 
@@ -119,7 +128,7 @@ class Env:
 
     async def gate(self, key: Any) -> None:
         """Suspend until the scenario opens gate `key` (or pass if opened)."""
-        if key in self.opened_gates:
+        if key in self.opened_gates or self.closed:      # closed: the scenario is over (generators finalised by the collector)
             return
         fut = self.gates.get(key)
         if fut is None or fut.done():
@@ -248,9 +257,12 @@ class ScriptedBroker(AsyncBroker):
 
 
 class RecordingBackend(AsyncResultBackend[Any]):
-    def __init__(self, env: Env) -> None:
+    def __init__(self, env: Env, inner: Any = None) -> None:
         self.env = env
         self.stored: Dict[str, Any] = {}
+        # a real backend behind the recorder (the in-memory route: the store InMemoryBroker built for itself): whatever is
+        # saved must be what can be read back from it afterwards
+        self.inner = inner
 
     async def set_result(self, task_id: str, result: Any) -> None:
         env = self.env
@@ -284,6 +296,17 @@ class RecordingBackend(AsyncResultBackend[Any]):
                     and (type(back.error) is type(err) or type(err).__name__ in str(back.error))))   # stand-in naming the class
         except Exception:  # noqa: BLE001
             rt_ok = False
+        inner_exc: Any = None
+        if self.inner is not None:
+            try:
+                await self.inner.set_result(task_id, result)
+                got = await self.inner.get_result(task_id) if await self.inner.is_result_ready(task_id) else None
+                rt_ok = rt_ok and got is not None and got.is_err == result.is_err and got.labels == result.labels and (
+                    (err is None and got.error is None and got.return_value == result.return_value)
+                    or (err is not None and type(got.error) is type(err) and got.error.args == err.args))
+            except Exception as exc:  # noqa: BLE001
+                inner_exc = exc
+                rt_ok = False
         flags = 0
         if result.is_err:
             flags |= 1
@@ -302,6 +325,9 @@ class RecordingBackend(AsyncResultBackend[Any]):
         if mc.get("savefail"):
             env.rec("save_e", m=m, x=tid, s="fail")
             raise ResultSetError
+        if inner_exc is not None:
+            env.rec("save_e", m=m, x=tid, s="fail")
+            raise inner_exc
         self.stored[task_id] = result
         env.rec("save_e", m=m, x=tid, s="ok")
 
@@ -333,6 +359,10 @@ def make_middleware(env: Env, idx: int, spec: Dict[str, Any]) -> TaskiqMiddlewar
         def finish(message: Any) -> Any:
             env.rec(hook + "_e", m=CUR_M.get(), x=idx)
             if mode == "raise":
+                if hook != "postsave" and _mid(message.task_id) % 3 == 2:
+                    # the hook was awaiting something that got cancelled under it (a lost connection): the processing of this
+                    # message ends cancelled instead of failed - for the worker's bookkeeping that is the same thing
+                    raise asyncio.CancelledError
                 raise HookError(hook)
             if hook == "pre":
                 if spec.get("replace"):
@@ -426,6 +456,10 @@ def build_deps(env: Env, deps: List[Dict[str, Any]]) -> Dict[int, Any]:
             lines.append("        raise")
             lines.append("    finally:")
             lines.append(f"        ENV.rec('dep_close', m=CUR_M.get(), x={did}, s=saw)")
+            if d.get("csusp") and style in ("agen", "acm"):
+                # a teardown that awaits (closing a connection, flushing): suspended until the scenario opens the gate
+                lines.append(f"        await ENV.gate(('depc', CUR_M.get(), {did}))")
+                lines.append(f"        ENV.rec('dep_closed', m=CUR_M.get(), x={did})")
         src = "\n".join(lines)
         glb = {
             "ENV": env, "CUR_M": CUR_M, "MID": _mid, "FNS": fns, "Context": Context,
@@ -487,6 +521,8 @@ def make_tasks(env: Env, broker: ScriptedBroker, cfg: Dict[str, Any]) -> None:
             exc: BaseException = TaskRejectedError()      # what Context.reject() raises: an ordinary failure of the execution
         elif outcome == "exc" and i % 7 == 3:
             exc = BrokenStrError(f"boom {i}", i)
+        elif outcome == "exc" and i % 4 == 1:
+            exc = QuotaError(f"u{i}", i)
         elif outcome == "exc":
             exc = BodyError(f"boom {i}", i)
         elif outcome == "falsy":
@@ -950,7 +986,7 @@ def _run_inmem(scn: Dict[str, Any], cfg: Dict[str, Any], loop: VLoop, env: Env) 
     loop.run_coro(broker.startup())        # what an application does first; the broker's options must survive it
     broker.executor.shutdown(wait=False)
     broker.receiver.executor = InlineExecutor()
-    broker.result_backend = RecordingBackend(env)
+    broker.result_backend = RecordingBackend(env, inner=broker.result_backend)
     for idx, spec in enumerate(cfg.get("mws") or [], start=1):
         broker.add_middlewares(make_middleware(env, idx, spec))
     make_tasks(env, broker, cfg)  # type: ignore[arg-type]
